@@ -48,6 +48,8 @@ func c11Docs() []bson.D {
 		bson.A{int32(1), int32(2), int32(3)}, bson.A{int32(3), int32(1), int32(2), int32(1)}, bson.A{},
 		bson.A{bD("x", int32(1), "y", int32(1)), bD("x", int32(2), "y", int32(2))}, bson.A{bD("x", int32(2)), bD("x", int32(1))},
 		bson.A{int32(1), "s", nil},
+		// 34-digit decimals with an even and an odd last digit
+		dec("1000000000000000000000000000000002"), dec("1000000000000000000000000000000001"),
 		// arrays directly inside arrays, and documents inside those
 		bson.A{bson.A{int32(1), int32(2)}, bson.A{int32(3)}}, bson.A{bson.A{bD("x", int32(1))}, bD("x", bson.A{int32(4), int32(5)})},
 	}
@@ -80,7 +82,9 @@ func c11Cases() []c11Case {
 		}
 	}
 	nums := []interface{}{int32(1), int32(0), int32(-1), int32(math.MaxInt32), int32(math.MinInt32), int64(1), int64(math.MaxInt64), int64(math.MinInt64),
-		0.5, math.NaN(), math.Inf(1), float64(1 << 53), dec("1.5"), dec("1234567890123456789012345678901234"), dec("NaN"), "x"}
+		0.5, math.NaN(), math.Inf(1), float64(1 << 53), dec("1.5"), dec("1234567890123456789012345678901234"), dec("NaN"), "x",
+		// exact ties at the 35th significant digit of a decimal128 result (round half to even)
+		dec("0.5"), dec("2.5")}
 	for _, p := range paths {
 		for _, v := range []interface{}{int32(1), "v", nil, bD("z", int32(1)), bson.A{int32(9)}, 2.5} {
 			add("$set", p, v)
@@ -412,6 +416,17 @@ func init() {
 			} {
 				checkOne(d, x.upd, x.filters, "identifier-reuse", "identifiers-reuse", "a.$[i]+a.$[j]", nil)
 			}
+		}
+		// long arrays: positional paths whose index has more digits than the operator has characters
+		{
+			var long bson.A
+			for k := 0; k < 1203; k++ {
+				long = append(long, bD("n", int32(k), "qty", int32(10)))
+			}
+			d := bD("_id", int32(1), "p", "before", "a", long, "q", int32(7))
+			checkOne(d, bD("$inc", bD("a.$[].qty", int32(1))), nil, "long-array", "long-array", "a.$[]", nil)
+			checkOne(d, bD("$set", bD("a.$[i].flag", true)), []bson.D{bD("i.n", bD("$gte", int32(998)))}, "long-array", "long-array", "a.$[i]", nil)
+			checkOne(d, bD("$unset", bD("a.$[].qty", "")), nil, "long-array", "long-array", "a.$[]", nil)
 		}
 		// through the collection: the stored document after UpdateOne is the document Apply produces, ModifiedCount is 1
 		// exactly when its bytes changed (a change of the numeric type alone is a change), and exactly then one update event is logged
